@@ -280,8 +280,12 @@ def gen_selfies(rng, ctx, kind=None):
                 w.append(rng.choice(pool))
         return "".join(w)
     if kind == "multi":
-        return ".".join(gen_selfies(rng, ctx, rng.choice(("plain", "chain", "rings")))
-                        for _ in range(rng.randint(2, 4)))
+        frags = [gen_selfies(rng, ctx, rng.choice(("plain", "chain", "rings"))) for _ in range(rng.randint(2, 4))]
+        if rng.random() < 0.35:      # identical fragments (counter-ions, solvent): anything that groups or dedupes them
+            f = rng.choice(frags)
+            frags += [f] * rng.randint(1, 3)
+            rng.shuffle(frags)
+        return ".".join(frags)
     if kind == "novel":
         n = rng.randint(1, 20)
         return "".join(rng.choice(NOVEL) if rng.random() < 0.5 else rng.choice(pool) for _ in range(n))
@@ -343,6 +347,7 @@ SMILES_OK = (
     "C:C:C:C", "C1:C:C:C:C:C:1", "N:C:C:N", "C:C", "CC:CC(F):C:C",
     "c12c3ccc1cc2c3", "c12c3c1c2c3c4cc4", "c12c3c1c2cc4cc34", "c12c3c4c1cc3c4c2", "c12c3cc4c1cc4c23", "c12c3ccc1cc2ccc3",
     "c12c3cc4c1c3ccc4c2", "c12c3cc4c3c4ccc1c2", "c12c3ccc1c(F)c2c3", "Oc1oc(c2ccccc2)c(n1)c3ccccc3", "c12c3cc4c1cc4c2cc3",
+    "CC.CC.CC", "[Na+].[Na+].[O-2]", "O.O.CC(=O)O.O", "C1CC1.C1CC1.C1CC1.N", "[K+].[K+].[K+].[O-]P(=O)([O-])[O-]",
     "[CH3:1][CH2:2]O", "[C:12](F)(F)(F)Cl", "[CH0](F)(F)(F)F", "C[NH0](C)C", "C[NH0+](C)(C)C", "C[SeH0]C", "[13CH0](C)(C)(C)C", "C1CCCCCCCCCCCCCCCCCC1", "C(CCCCCCCCCCCCCCCCCCC)(F)Cl",
     "C1CCCCCCCCCCCCCCCCCC1C2CCCCCCCCCCCCCCCCCC2", "F/C=C/C=C\\C=C/Cl", "C[C@H]1CC[C@@H](C)CC1", "O[C@@H]1CC[C@]21CCC2",
     "[H]C([H])([H])[H]", "[2H]C([3H])=O", "[O--]", "[Fe+++]", "[NH3+][CH2][C](=O)[O-]", "C%11CC%11C%12CC%12",
